@@ -7,6 +7,7 @@ from ..r_rules import rule_tables_applicable
 from ..r_domains import rule_domains
 from ..r_escape import rule_yield_then_mutate, rule_borrowed_pool
 from ..r_hygiene import rule_hygiene as _rule_hygiene
+from ..r_round8 import rule_pyrrole_pair_threshold as _r8_pairs
 
 LEVEL = 'other'
 
@@ -24,3 +25,4 @@ def run(ck, repo):
     rule_borrowed_pool(ck, repo, 'C05.D4-pooled-forms-copied', in_kekule, floor=1)
     _rule_hygiene(ck, repo, 'C05.H-dataflow-hygiene', 'C05')
     rule_exocyclic_double(ck, repo, 'C05.D2-exocyclic-double-bond')
+    _r8_pairs(ck, repo, 'C05.D6-pyrrole-pairs')
